@@ -146,6 +146,7 @@ class Engine(object):
         self.solver_seconds = 0.0
         self.cur_mod = mod
         self.pure_depth = 0
+        self._ghost_hits = set()
         if func_node is not None:
             self._number_sites(func_node)
 
@@ -203,17 +204,22 @@ class Engine(object):
         return st.assume(goal)
 
     def feasible(self, st):
+        """Path pruning only (an answer of True is always safe).  Quantified facts are left
+        out: the check is on a weakening of the path condition."""
         if not st.pc:
             return True
         if any(z3.is_false(p) for p in st.pc):
             return False
-        key = tuple(p.get_id() for p in st.pc)
+        if self.pure or self.pure_depth:
+            return True
+        pcq = [p for p in st.pc if not ops.has_quantifier(p)]
+        key = tuple(p.get_id() for p in pcq)
         if key in self._feas_cache:
             return self._feas_cache[key]
         s = z3.Solver()
-        s.set("timeout", int(self.options.get("feas_timeout_ms", 1500)))
-        s.add(*st.pc)
-        s.add(*ops.AXIOMS.values())
+        s.set("timeout", int(self.options.get("feas_timeout_ms", 800)))
+        s.add(*pcq)
+        s.add(*ops.axioms_for(pcq))
         import time
         t0 = time.time()
         r = s.check()
@@ -755,7 +761,10 @@ class Engine(object):
         if isinstance(base, ClassRef):
             for n in base.node.body:
                 if isinstance(n, ast.FunctionDef) and n.name == attr:
-                    return [(st, FuncV(n, base.mod, cls=base.node, qual=base.node.name + "." + attr))]
+                    fv = FuncV(n, base.mod, cls=base.node, qual=base.node.name + "." + attr)
+                    if any(isinstance(d, ast.Name) and d.id == "classmethod" for d in n.decorator_list):
+                        fv = fv.bind(base)
+                    return [(st, fv)]
             try:
                 obj = getattr(getattr(base.mod.pymod, base.node.name), attr)
             except Exception:
@@ -776,9 +785,19 @@ class Engine(object):
             return self.partial(st, node, 'AttributeError', False, NONE)
         if isinstance(base, (ListV, SeqV, MapV, SetV, ConstDict, tuple, str, StrV)) or is_scalar(base):
             if is_scalar(base):
-                # IntEnum conveniences
-                if attr == "opposite":
-                    return self._with_arith(st, node, lambda ar: ar.binop('%', ar.binop('+', base, 3), 6))
+                # an int-valued enum member (rig.links.Links, Routes ...): methods of the enum class
+                ic = self.options.get("int_class")
+                if ic is not None:
+                    from .modules import find_function
+                    try:
+                        mi, fnode, cnode = find_function(ic + "." + attr)
+                    except KeyError:
+                        fnode = None
+                    if fnode is not None:
+                        fv = FuncV(fnode, mi, cls=cnode, qual=cnode.name + "." + attr).bind(base)
+                        if any(isinstance(d, ast.Name) and d.id == "property" for d in fnode.decorator_list):
+                            return self.call_function(fv, [], {}, st, node)
+                        return [(st, fv)]
                 if attr in ("value",):
                     return [(st, base)]
             return [(st, BoundBuiltin(attr, base))]
@@ -1356,7 +1375,28 @@ class Engine(object):
         m = getattr(self, "st_" + type(node).__name__, None)
         if m is None:
             raise EngineError("statement %s not in the subset (line %d)" % (type(node).__name__, node.lineno))
-        return m(node, st)
+        res = m(node, st)
+        ga = self.options.get("ghost_asserts")
+        if ga and self.depth == 0 and not self.pure_depth:
+            text = " ".join(self.mod.segment(node).split())
+            fns = ga.get(text)
+            if fns:
+                self._ghost_hits.add(text)
+                con = self.options["contract"]
+                out = []
+                for kind, s2, v in res:
+                    if kind == "normal":
+                        amap = dict(s2.env)
+                        for k2, v2 in s2.ghost.get("__iter__", {}).items():
+                            amap["iter_" + k2] = v2
+                        for p, v2 in self.options.get("entry", {}).items():
+                            amap["old_" + p] = v2
+                        for f in fns:
+                            g = self.eval_spec(f, con, amap, s2)
+                            s2 = self.oblige(s2, "ghost", node, ops._tb(truth(g)) if not isinstance(g, bool) else g, label=f.name)
+                    out.append((kind, s2, v))
+                res = out
+        return res
 
     def _raise_out(self, s, r):
         return ("raise", s, r.exc)
@@ -1677,7 +1717,7 @@ class Engine(object):
             for it in items:
                 nxt = []
                 for s1 in states:
-                    s2 = self.assign(node.target, it, s1, node)
+                    s2 = self._mark_iter(self.assign(node.target, it, s1, node))
                     for k, s3, v in self.exec_block(node.body, s2):
                         if k in ("normal", "continue"):
                             nxt.append(s3)
@@ -1728,12 +1768,15 @@ class Engine(object):
         elem = None
         if is_for:
             if isinstance(itv, RangeV):
-                if itv.step != 1:
-                    raise EngineError("range step in an invariant loop")
+                if not (isinstance(itv.step, int) and itv.step >= 1):
+                    raise EngineError("range step in an invariant loop must be a positive constant")
                 ar = Arith(lambda *x: None)
+                stp = itv.step
                 d = ar.binop('-', itv.hi, itv.lo)
+                if stp != 1:
+                    d = ar.binop('//', ar.binop('+', d, stp - 1), stp)
                 n_items = ite(ar.compare('>', d, 0), d, 0)
-                elem = lambda k: (ar.binop('+', itv.lo, k), [])
+                elem = lambda k: (ar.binop('+', itv.lo, ar.binop('*', k, stp)), [])
             elif isinstance(itv, (SeqV, ListV, tuple)):
                 sq = seqs.to_seq(itv)
                 n_items = sq.length
@@ -1748,9 +1791,18 @@ class Engine(object):
                 mod_names.add(r)
         has_yield = any(isinstance(n, (ast.Yield, ast.YieldFrom)) for b in node.body for n in ast.walk(b))
 
+        var_shapes = self.options.get("var_shapes", {})
+        st = st.copy()
+        for vn, sh in var_shapes.items():
+            if vn in mod_names and isinstance(st.env.get(vn), ListV) and isinstance(sh, TSeq):
+                items = st.env[vn].items
+                st.env[vn] = seqs.to_seq(st.env[vn], sh.elem) if items else SeqV(0, sh.elem, [z3.K(z3.IntSort(), ops_default(l)) for l in shape_leaves(sh.elem)])
+        pre_vals = {"pre_" + vn: st.env[vn] for vn in mod_names if vn in st.env}
+
         def inv_args(s, k):
             m = dict(s.env)
             m.update(s.ghost)
+            m.update(pre_vals)
             m[kname] = k
             m["_k"] = k
             m["_yielded"] = s.yielded
@@ -1835,6 +1887,7 @@ class Engine(object):
                 if s_f is not None and self.feasible(s_f):
                     exits.append(s_f)
         var0 = None
+        bodies = [(self._mark_iter(s_b), x) for s_b, x in bodies]
         for s_b, _ in bodies:
             if spec.variant is not None:
                 var0 = self.eval_spec(spec.variant, con, inv_args(s_b, k), s_b)
@@ -1855,6 +1908,12 @@ class Engine(object):
         for s_e in exits:
             outs.extend(self.exec_block(node.orelse, s_e) if node.orelse else [("normal", s_e, None)])
         return outs
+
+    def _mark_iter(self, s):
+        s = s.copy()
+        s.ghost = dict(s.ghost)
+        s.ghost["__iter__"] = dict(s.env)
+        return s
 
     def _body_has_calls(self, node):
         return any(isinstance(n, ast.Call) for b in node.body for n in ast.walk(b))
